@@ -48,8 +48,16 @@ def save_worker(analysis: Analysis, spec) -> dict:
         renames = [e for e in fe if e["name"] in ("os.rename", "os.replace", "shutil.move")]
         removes = [e for e in fe if e["name"] in ("os.remove", "os.unlink")]
         clears = [e for e in fe if e["name"] == "store need_save" and e["val"] is False]
-        denied = any(e.kind == "call" and False for e in s.events)
-        rows.append({"kind": kind, "exc": v.cls.__name__ if kind == "raise" else None, "exc_site": v.site if kind == "raise" else None, "fe": [{k: (repr(x) if k in ("args", "recv", "kwargs") else x) for k, x in e.items() if k not in ("facts", "argv")} for e in fe], "raw": fe, "witness": describe_path(out, 26)})
+        # why a path without a write was skipped, and lock discipline
+        nskey = ("attr", p.key(), "need_save")
+        falsy = [f[1] for f in s.facts if f[0] == "falsy"]
+        reason = "clean" if nskey in falsy else ("denied" if any("os.access(" in repr(k) for k in falsy) else None)
+        acc = [repr(e.args[0].key()) for e in s.events if e.kind == "call" and e.name == "os.access" and e.args and isinstance(e.args[0], V)]
+        acq = sum(1 for e in s.events if e.kind in ("call", "unmodelled") and e.name.endswith(".acquire"))
+        rel = sum(1 for e in s.events if e.kind in ("call", "unmodelled") and e.name.endswith(".release"))
+        state_updates = [f"{e.func}:{e.line}" for e in s.events if e.kind == "update" and isinstance(e.recv, V) and "sensors" in repr(e.recv.key())]
+        catches = [(i, e.name, e.func) for i, e in enumerate(s.events) if e.kind == "catch"]
+        rows.append({"skip_reason": reason, "access_args": acc, "acquires": acq, "releases": rel, "state_updates": state_updates, "catches": catches, "kind": kind, "exc": v.cls.__name__ if kind == "raise" else None, "exc_site": v.site if kind == "raise" else None, "fe": [{k: (repr(x) if k in ("args", "recv", "kwargs") else x) for k, x in e.items() if k not in ("facts", "argv")} for e in fe], "raw": fe, "witness": describe_path(out, 26)})
     return {"ext": ext, "ctx": ctx.name, "rows": rows}
 
 
@@ -94,10 +102,15 @@ def analyse_save_rows(res: RuleResult, summ) -> None:
         renames = [e for e in fe if e["name"] in ("os.rename", "os.replace", "shutil.move")]
         removes = [e for e in fe if e["name"] in ("os.remove", "os.unlink")]
         clears = [e for e in fe if e["name"] == "store need_save" and e["val"] is False]
+        flag_stores = [e for e in fe if e["name"] == "store need_save"]
+        final_flag = flag_stores[-1]["val"] if flag_stores else None  # None: untouched, i.e. still set
+        if r["kind"] == "raise" and (r.get("acquires", 0) or r.get("releases", 0)):
+            ok_l = r["releases"] == r["acquires"]
+            res.add("C12-R3", f"save_sensors[{ext}] / a lock taken by the save is released on every exit, also when a file operation fails", ok_l, "mysensors/persistence.py", f"{r['acquires']} acquire / {r['releases']} release" if ok_l else f"{r['acquires']} acquire but {r['releases']} release on a path that fails with {r['exc']}: the lock stays held and every later save (scheduled or final) is skipped", r["witness"] if not ok_l else None)
         if r["kind"] == "raise":
             failing += 1
-            ok = not clears
-            res.add("C12-R3", f"save_sensors[{ext}] / a failing file operation leaves the state marked unsaved", ok, "mysensors/persistence.py", f"{r['exc']} propagates, need_save untouched" if ok else "the dirty flag is cleared although a file operation failed", r["witness"] if not ok else None)
+            ok = final_flag in (None, True)
+            res.add("C12-R3", f"save_sensors[{ext}] / a failing file operation leaves the state marked unsaved", ok, "mysensors/persistence.py", f"{r['exc']} propagates, need_save " + ("untouched" if final_flag is None else "set again before the exception leaves") if ok else "the dirty flag is cleared (and not set again) although a file operation failed: the retry and the final save at stop() skip", r["witness"] if not ok else None)
             # ... and leaves a loadable previous copy: the backup may be removed only after the new main file
             # really is in place (a removal in a finally / handler after the failed move-in deletes the only copy)
             rm_bak_f = [e for e in removes if e["args"] and e["args"][0] == bak_key]
@@ -108,12 +121,30 @@ def analyse_save_rows(res: RuleResult, summ) -> None:
                 ok_keep = bool(done) or not aside_f
                 res.add("C12-R3", f"save_sensors[{ext}] / a failed save never removes the backup before the new main file is in place", ok_keep, "mysensors/persistence.py", "on failing paths the backup is only removed after a completed move-in" if ok_keep else f"on the path where {failed_at} fails, the old file has been moved aside to the backup and the backup is then removed: no loadable copy is left", r["witness"] if not ok_keep else None)
             continue
-        if not wr_opens and not renames:
+        # a lock taken on the way is released on every exit (a failing save that keeps it makes every later save skip)
+        if r.get("acquires", 0) or r.get("releases", 0):
+            wrote = bool(wr_opens or renames)
+            ok_l = r["releases"] == r["acquires"] if wrote else r["releases"] <= r["acquires"]
+            res.add("C12-R3", f"save_sensors[{ext}] / a lock taken by the save is released on every exit, also when a file operation fails", ok_l, "mysensors/persistence.py", f"{r['acquires']} acquire / {r['releases']} release" if ok_l else f"{r['acquires']} acquire but {r['releases']} release on a path that {'fails with ' + str(r['exc']) if r['kind'] == 'raise' else 'writes'}: the lock stays held and every later save (scheduled or final) is skipped", r["witness"] if not ok_l else None)
+        if r["kind"] != "raise" and not wr_opens and not renames:
             # early return paths (permission denied / nothing to save): must not clear the flag
             ok = not clears
             res.add("C12-R3", f"save_sensors[{ext}] / a skipped save does not clear the dirty flag", ok, "mysensors/persistence.py", "early return", r["witness"] if not ok else None)
+            ok_r = r.get("skip_reason") in ("clean", "denied")
+            res.add("C12-R3", f"save_sensors[{ext}] / a save is skipped only when the state is clean or the location is not writable", ok_r, "mysensors/persistence.py", f"skipped because: {r.get('skip_reason')}" if ok_r else "a path returns without writing although the state is dirty and the location writable (e.g. because another save is in progress): the final save of stop() can be skipped and the last reports are lost", r["witness"] if not ok_r else None)
             continue
         normal += 1
+        # the directory whose writability is tested comes from an absolute path: dirname() of a bare file name
+        # is "" and os.access("") is False - every save would be refused
+        for a in r.get("access_args", []):
+            if "os.path.dirname(" in a:
+                ok_abs = "os.path.realpath(" in a or "os.path.abspath(" in a
+                res.add("C12-R1", f"save_sensors[{ext}] / the directory tested for writability is taken from an absolute path", ok_abs, "mysensors/persistence.py", "dirname(realpath(persistence_file))" if ok_abs else f"os.access({a[:110]}) - for a persistence file given as a bare file name (the default) the directory is '' and every save is refused as 'permission denied'", r["witness"] if not ok_abs else None)
+        res.add("C12-R3", f"save_sensors[{ext}] / saving does not modify the live state", not r.get("state_updates"), "mysensors/persistence.py", "no update of the sensors map on a save path" if not r.get("state_updates") else f"the sensors map is updated at {r['state_updates'][0]} during a save: live Sensor objects are replaced by re-loaded copies (sleep state, hold queues and reboot flags of all nodes are reset by every save)", r["witness"] if r.get("state_updates") else None)
+        # a failed write is never followed by the move-in: what replaces the good file was written completely
+        first_w = min([e["i"] for e in wr_opens] or [10**9])
+        swallowed = [(n, f) for i, n, f in r.get("catches", []) if i > first_w and f.startswith("persistence:")]
+        res.add("C12-R2", f"save_sensors[{ext}] / an error while the temp file is written is not swallowed (the save fails, the good file stays)", not swallowed, "mysensors/persistence.py", "no handler between the write and the move-in on a completing path" if not swallowed else f"{swallowed[0][0]} raised while writing is caught in {swallowed[0][1]} and the save goes on: a partly written temp file replaces the good file, the backup is removed and the state is marked saved", r["witness"] if swallowed else None)
         # fname: target of the rename whose source is the written temp name
         tmp = wr_opens[0]["args"][0] if wr_opens else None
         ok1 = len(wr_opens) == 1 and tmp is not None
@@ -176,9 +207,12 @@ def analyse_save_rows(res: RuleResult, summ) -> None:
             res.add("C12-R3", f"save_sensors[{ext}] / the backup is removed only after the new main file is in place", ok_rm, "mysensors/persistence.py", "remove(bak) follows rename(tmp, main)" if ok_rm else f"{len(rm_bak)} removals of the backup / wrong order", r["witness"] if not ok_rm else None)
         else:
             res.add("C12-R3", f"save_sensors[{ext}] / no backup removal when nothing was moved aside", not rm_bak, "mysensors/persistence.py", "both backup operations are under the same `exists` condition", r["witness"] if rm_bak else None)
-        last_fs = max([e["i"] for e in renames + removes] + [write_done])
-        ok_clear = len(clears) == 1 and clears[0]["i"] > last_fs
-        res.add("C12-R3", f"save_sensors[{ext}] / the dirty flag is cleared after every file operation", ok_clear, "mysensors/persistence.py", "need_save = False is the last effect" if ok_clear else f"{len(clears)} clearing stores / not last", r["witness"] if not ok_clear else None)
+        # the flag is cleared exactly once, and before the state is read: alert() runs on another thread (the pump)
+        # and marks the state again while the file is being written - a clearing store after the dump has begun
+        # wipes that mark, and the report is lost at stop() (lost update on the dirty flag)
+        first_read = min([e["i"] for e in dumps + wr_opens] or [0])
+        ok_clear = len(clears) == 1 and clears[0]["i"] < first_read
+        res.add("C12-R3", f"save_sensors[{ext}] / the dirty flag is cleared once, before the state is read (a report handled during the write marks it again)", ok_clear, "mysensors/persistence.py", "need_save = False precedes the dump; failing paths set it again" if ok_clear else (f"{len(clears)} clearing stores" if len(clears) != 1 else "need_save = False is stored after the dump has begun: a report handled by the pump thread while the file is written (alert sets the flag) is marked as saved although the file does not contain it - the final save at stop() is skipped and the report is lost"), r["witness"] if not ok_clear else None)
     if normal < 1:
         res.add("C12-R3", f"save_sensors[{ext}] / a dirty state is written", False, "mysensors/persistence.py", "no path of save_sensors writes the temp file and moves it into place")
     if failing < 4:
@@ -277,7 +311,8 @@ def load_worker(analysis: Analysis, spec) -> dict:
         removes = [e for e in fe if e["name"] == "os.remove"]
         LOAD_OPS = {"os.path.isfile", "os.path.exists", "os.access", "os.rename", "os.replace", "builtins.open", "os.remove", "os.unlink", "pickle.load", "json.load", "with_enter", "with_exit", "update", "os.path.realpath", "os.path.splitext", "os.path.dirname", "os.path.basename", "os.path.join", "os.path.getsize", "file.read", "file.close"}
         other_ops = sorted({e["name"] for e in fe if e["name"] not in LOAD_OPS})
-        rows.append({"kind": kind, "other_ops": other_ops, "exc": v.cls.__name__ if kind == "raise" else None, "exc_what": v.what if kind == "raise" else None, "loads": loads, "catches": catches, "decodes": [(e["i"], e["name"]) for e in decodes], "updates": [(e["i"], repr(e["args"])) for e in updates], "renames": [(e["i"], e["args"]) for e in renames], "removes": [(e["i"], e["args"]) for e in removes], "witness": describe_path(out, 26), "bak_key": bak_key, "pf_key": pf_key})
+        tests = [(e["i"], e["name"], e["args"][0] if e["args"] else None) for e in fe if e["name"] in ("os.path.isfile", "os.path.exists", "os.access")]
+        rows.append({"tests": tests, "kind": kind, "other_ops": other_ops, "exc": v.cls.__name__ if kind == "raise" else None, "exc_what": v.what if kind == "raise" else None, "loads": loads, "catches": catches, "decodes": [(e["i"], e["name"]) for e in decodes], "updates": [(e["i"], repr(e["args"])) for e in updates], "renames": [(e["i"], e["args"]) for e in renames], "removes": [(e["i"], e["args"]) for e in removes], "witness": describe_path(out, 26), "bak_key": bak_key, "pf_key": pf_key})
     return {"ext": ext, "ctx": ctx.name, "rows": rows}
 
 
@@ -299,6 +334,13 @@ def analyse_load_rows_c12(res: RuleResult, summ) -> None:
         first_bak_i = bak_attempts[0]["i"] if bak_attempts else 10**9
         early = [(i, a) for i, a in r["removes"] + r["renames"] if a and r["bak_key"] in a and i < first_bak_i]
         res.add("C12-R4", f"safe_load_sensors[{ext}] / the backup is left alone until the main file has failed to load", not early, "mysensors/persistence.py", "no file operation on the backup during the main attempt" if not early else "the backup is removed / moved while the main file is being tried, before it has proved loadable: a damaged main file then leaves nothing to fall back to", r["witness"] if early else None)
+        # each attempt tests the file it is about to load, not the other one
+        for k, l in enumerate(loads):
+            end = loads[k + 1]["i"] if k + 1 < len(loads) else 10**9
+            want = r["bak_key"] if l["bak"] else r["pf_key"]
+            wrong = [(n, a) for i, n, a in r.get("tests", []) if l["i"] < i < end and a != want]
+            which = "backup" if l["bak"] else "main"
+            res.add("C12-R4", f"safe_load_sensors[{ext}] / the {which} attempt tests the existence and readability of the {which} file", not wrong, "mysensors/persistence.py", "isfile / access on the file that is loaded" if not wrong else f"{wrong[0][0]}({wrong[0][1]!r}) during the {which} attempt: the test looks at the other file - an intact backup is ignored when the main file is missing, and a missing backup is renamed (FileNotFoundError out of start-up) when the main file is damaged", r["witness"] if wrong else None)
         if r["kind"] == "raise":
             continue  # C13
         main_ok = main_attempts and main_attempts[0]["ok"] is True
